@@ -10,7 +10,7 @@ from __future__ import annotations
 from fractions import Fraction
 from typing import Any, Dict, List
 
-from .. import drive_api, gen, model
+from .. import drive_api, e2e, gen, model
 from ..engine_common import engine_case, history_classes
 from ..runner import Outcome
 
@@ -33,12 +33,20 @@ ASSUMPTIONS = [
 CFG = gen.GenCfg(min_steps=2, max_steps=14)
 
 
+E2E_HIST = gen.GenCfg(min_steps=4, max_steps=14, max_exchanges=2, max_holders=2, tie_prob=0.2, bulk_prob=0.03)
+
+
 def budget(tier: str) -> Dict[str, Any]:
-    return {"shards": 16, "examples": 1500 if tier == "quick" else 25000}
+    return {"shards": 16, "examples": 1500 if tier == "quick" else 25000, "examples2": 8 if tier == "quick" else 150}
 
 
 def strategy(tier: str) -> Any:
     return engine_case(CFG)
+
+
+def strategy2(tier: str) -> Any:
+    """End-to-end tier: multi-asset files through the console entry point, predicate applied to the report's detail rows."""
+    return e2e.file_strategy(E2E_HIST, countries=("us", "us", "us", "generic"))
 
 
 def lot_order_violations(out: Outcome, txs: List[model.Tx], schedule: Dict[str, str], fractions: List[Dict[str, Any]]) -> None:
@@ -98,6 +106,8 @@ def lot_order_violations(out: Outcome, txs: List[model.Tx], schedule: Dict[str, 
 
 
 def evaluate(case: Dict[str, Any]) -> Outcome:
+    if case.get("e2e"):
+        return e2e.evaluate_assets(case, "c01e", lambda out, asset, txs, dump, schedule: lot_order_violations(out, txs, schedule, dump["fractions"]))
     out = Outcome()
     txs = model.make_txs(case["rows"])
     out.classes |= history_classes(txs, case["schedule"])
@@ -110,3 +120,7 @@ def evaluate(case: Dict[str, Any]) -> Outcome:
         return out
     lot_order_violations(out, txs, case["schedule"], dump["fractions"])
     return out
+
+
+def minimize(case: Dict[str, Any], clause: str) -> Dict[str, Any]:
+    return e2e.minimize(case, clause, evaluate) if case.get("e2e") else case
